@@ -97,13 +97,17 @@ def spec_lines(g):
     return {s.split()[0]: s for s in g.spec}
 
 
-def oracle_spec_equal(channels, kind_only_ret=True):
+def oracle_spec_equal(channels, kind_only_ret=True, skip_d2=False):
     """impl line must equal what the reference log demands (the `=` lines the
-    driver attached to the corresponding model line)."""
+    driver attached to the corresponding model line). With `skip_d2`, a read
+    that the model reproduces and attributes to the C07 known finding (entry at
+    or below the eviction boundary evicted) is left to C07."""
 
     def orc(script, ig, mg):
         fails = []
         for i, (a, b) in enumerate(zip(ig, mg)):
+            if skip_d2 and a.line == b.line and any(x.startswith("c07 below-boundary-evicted") for x in b.info):
+                continue
             for s in b.spec:
                 ch = s.split()[0]
                 if ch not in channels:
@@ -629,7 +633,8 @@ PROPS = {
         assumptions=OS_ASSUMPTIONS + ["crc32fast computes the bitwise reflected CRC-32 (checked on every generated record)"],
     ),
     "C01": dict(
-        theorems=[],
+        theorems=["c01_step", "c01_spec_wf", "c01_read", "c01_iter", "c01_state", "c01_refines_store",
+                  "c01_refines", "c01_calls_ok", "c01_chunking_invisible"],
         gen=scripts_c01, project=proj_c01, oracle=oracle_spec_equal({"ret", "st", "read", "iter"}),
         explanation="refinement of the reference log; footprint ret(kind)/st/read/iter",
         assumptions=OS_ASSUMPTIONS,
@@ -807,3 +812,513 @@ def run_property(pid, P, tier, seed):
                          and not l.startswith("//")]
                 corpus.append(("corpus_" + f[:-7].replace("-", "_"), lines))
     return run_scripts(pid, P, corpus + scripts, tier, seed, stats=stats)
+
+
+# ---------------------------------------------------------------------------
+# worker / file-system trace properties: C04, C08, C14, C07, C02
+# ---------------------------------------------------------------------------
+
+class Trace:
+    """Replays the implementation's observation groups and keeps what the trace
+    oracles need: per-file written/synced byte counts, linked files, journal
+    end, flush requests, callbacks, accepted writes."""
+
+    def __init__(self, script, gs):
+        self.prim = primary_cmds(script)
+        self.gs = gs
+        self.files = {}        # id -> dict(written, synced, linked, base)
+        self.end = None
+        self.flush_end = {}    # cb id -> (journal end at the flush call, sorted chunk ids then)
+        self.flush_order = []
+        self.cb_seen = []
+        self.faulted = False
+        self.fails = []
+        self.live = {}         # index -> (term, chunk id)
+        self.purged = None
+        self.purges = []       # (upto, off, size) journalled purges
+        self.closing_last = {} # chunk id -> last (t,i) or None when it was closed
+        self.open_id = None
+        self.seq = 0           # event counter
+        self.created_seq = {}  # chunk id -> (seq at creation, head length)
+
+    def chunk_of(self, off):
+        ids = sorted(i for i in self.files if i <= off)
+        return ids[-1] if ids else None
+
+    def linked(self):
+        return sorted(i for i, f in self.files.items() if f["linked"])
+
+    def on_ev(self, e, hooks):
+        t = e.split()
+        k = t[1]
+        self.seq += 1
+        if k == "create" and t[-1] == "ok":
+            self.files[int(t[3])] = dict(written=0, synced=0, linked=True, base=0)
+            self.created_seq[int(t[3])] = [self.seq, None]
+        elif k == "write":
+            if t[-1] == "ok":
+                f = self.files.setdefault(int(t[3]), dict(written=0, synced=0, linked=True, base=0))
+                if int(t[3]) in self.created_seq and self.created_seq[int(t[3])][1] is None:
+                    self.created_seq[int(t[3])][1] = int(t[4])
+                f["written"] += int(t[4])
+            else:
+                self.faulted = True
+        elif k == "sync":
+            if t[-1] == "ok":
+                f = self.files.setdefault(int(t[3]), dict(written=0, synced=0, linked=True, base=0))
+                f["synced"] = f["written"]
+            else:
+                self.faulted = True
+        elif k == "trunc":
+            f = self.files.setdefault(int(t[3]), dict(written=0, synced=0, linked=True, base=0))
+            f["written"] = int(t[4])
+            f["synced"] = min(f["synced"], f["written"])
+        elif k == "unlink":
+            if t[-1] == "ok":
+                hooks.get("unlink", lambda *_: None)(self, int(t[3]), t[2])
+                if int(t[3]) in self.files:
+                    self.files[int(t[3])]["linked"] = False
+            else:
+                self.faulted = True
+        elif k == "cb":
+            hooks.get("cb", lambda *_: None)(self, int(t[2]), t[3] == "ok")
+            self.cb_seen.append((int(t[2]), t[3]))
+            if t[3] != "ok":
+                self.faulted = True
+        elif k == "cbdrop":
+            self.cb_seen.append((int(t[2]), "dropped"))
+            self.faulted = True
+        elif k == "exit" and t[-1] == "fail":
+            self.faulted = True
+
+    def run(self, hooks):
+        for i, g in enumerate(self.gs):
+            cmd = self.prim[i] if i < len(self.prim) else ""
+            w = cmd.split()[0] if cmd else ""
+            self.group_start_seq = self.seq
+            for e in g.evs:
+                if e.startswith("ev "):
+                    self.on_ev(e, hooks)
+                if self.fails:
+                    return self
+            line = g.line
+            if line.startswith("dir "):
+                # authoritative lengths (used to seed files that existed before `open`)
+                for p in line.split()[1:]:
+                    f = p.split(":")
+                    cid, ln, du = int(f[0]), int(f[1]), int(f[2])
+                    if cid not in self.files:
+                        self.files[cid] = dict(written=ln, synced=du, linked=True, base=ln)
+            if w == "open" and line == "open ok":
+                # files seen for the first time keep their seeded counts
+                pass
+            if line.startswith("stat "):
+                m = re.search(r"open=(\d+):(\d+):(\d+):(\d+):", line)
+                if m:
+                    self.open_id = int(m.group(1))
+                    self.end = int(m.group(3))
+                for m2 in re.finditer(r"(\d+):(\d+):(\d+):(\d+):\[vote=\S+ last=(\S+) ", line.split(" open=")[0]):
+                    cid, last = int(m2.group(1)), m2.group(5)
+                    self.closing_last[cid] = None if last == "-" else tuple(int(x) for x in last.split(","))
+            if w in WRITE_WORDS and line.startswith("ret ok"):
+                off, size = [int(x) for x in line.split()[2].split(",")]
+                heads = [e.split() for e in g.evs if e.startswith("ev write c")]
+                noop = (w == "purge" and self.end is not None and off + size <= self.end and not heads
+                        and off < self.end and (off + size) != self.end + size)
+                if heads:
+                    self.end = int(heads[-1][3]) + int(heads[-1][4])
+                elif self.end is None or off + size > self.end:
+                    self.end = off + size
+                self.on_write(cmd, off, size, g)
+            if w == "flush" and line == "ret ok":
+                t = cmd.split()
+                if t[1] != "-":
+                    cid = int(t[1])
+                    self.flush_end[cid] = (self.end, sorted(self.files))
+                    self.flush_order.append(cid)
+            hooks.get("group", lambda *_: None)(self, i, cmd, g)
+            if self.fails:
+                return self
+        return self
+
+    def on_write(self, cmd, off, size, g):
+        t = cmd.split()
+        if t[0] == "app":
+            # entries are journalled one after the other; the last one is at (off,size);
+            # place every entry of the batch in the chunk that holds the last offset or an
+            # earlier one created in this call (close enough for liveness: the index matters)
+            chunk = self.chunk_of(off)
+            created = [int(e.split()[3]) for e in g.evs if e.startswith("ev create c") and e.endswith("ok")]
+            ents = [x.split(",", 2) for x in t[1:]]
+            for n, (a, b, _) in enumerate(ents):
+                c = chunk
+                if len(ents) > 1 and created:
+                    c = None  # unknown which side of the rotation an earlier entry fell on
+                self.live[int(b)] = ((int(a), int(b)), c)
+        elif t[0] == "trunc":
+            idx = int(t[1])
+            self.live = {i: v for i, v in self.live.items() if i < idx}
+        elif t[0] == "purge":
+            upto = (int(t[1]), int(t[2]))
+            nxt = 0 if self.purged is None else self.purged[1] + 1
+            if upto[1] >= nxt:
+                self.live = {i: v for i, v in self.live.items() if i > upto[1]}
+                if self.purged is None or self.purged < upto:
+                    self.purged = upto
+                # files created during this very call (rotation) already hold the purge in their head
+                self.purges.append((upto, off, size, self.group_start_seq))
+
+
+def oracle_c04(script, ig, mg):
+    """Flush acknowledgement soundness on the implementation's own trace."""
+
+    def on_cb(tr, cid, ok):
+        if any(c == cid for c, _ in tr.cb_seen):
+            tr.fails.append(("callback-invoked-twice", {"cb": cid}))
+            return
+        # request order
+        fired = [c for c, r in tr.cb_seen if r in ("ok", "err")]
+        if fired and cid in tr.flush_order and fired[-1] in tr.flush_order and \
+                tr.flush_order.index(cid) < tr.flush_order.index(fired[-1]):
+            tr.fails.append(("callback-out-of-request-order", {"cb": cid, "after": fired[-1]}))
+            return
+        if not ok or cid not in tr.flush_end:
+            return
+        end, chunks = tr.flush_end[cid]
+        if end is None:
+            return
+        for n, c in enumerate(chunks):
+            if c >= end:
+                continue
+            f = tr.files.get(c)
+            if f is None or not f["linked"]:
+                continue
+            c_end = chunks[n + 1] if n + 1 < len(chunks) else end
+            need = min(end, c_end) - c
+            if need > f["base"] and f["synced"] < need:
+                tr.fails.append(("ack-before-bytes-synced",
+                                 {"cb": cid, "chunk": c, "needed": need, "written": f["written"],
+                                  "synced": f["synced"], "journal_end_at_flush": end}))
+                return
+
+    tr = Trace(script, ig).run({"cb": on_cb})
+    if tr.fails:
+        return tr.fails
+    # exactly once when nothing failed and the worker ran to idle at the end
+    if not tr.faulted and tr.prim and ig and ig[-1].line.startswith("wst idle"):
+        missing = [c for c in tr.flush_order if not any(x == c for x, _ in tr.cb_seen)]
+        if missing:
+            return [("callback-never-invoked", {"missing": missing})]
+    return []
+
+
+def oracle_c08(script, ig, mg):
+    def on_unlink(tr, cid, thread):
+        linked = tr.linked()
+        if linked and cid != linked[0]:
+            tr.fails.append(("not-oldest-first", {"unlinked": cid, "linked": linked}))
+            return
+        alive = [i for i, (lid, c) in tr.live.items() if c == cid]
+        if alive:
+            tr.fails.append(("chunk-with-live-entry-deleted", {"chunk": cid, "live_indexes": alive[:5]}))
+            return
+        cl = tr.closing_last.get(cid, "unknown")
+        ok = False
+        for upto, off, size, pseq in tr.purges:
+            if not (cl == "unknown" or cl is None or cl <= upto):
+                continue
+            # (i) the PurgeUpto record itself, written and synced in a file that remains
+            f = tr.chunk_of(off)
+            if f is not None and f != cid and tr.files[f]["linked"] and tr.files[f]["synced"] >= off + size - f:
+                ok = True
+            # (ii) the state snapshot at the head of a file started after that purge
+            for g, (cseq, hl) in tr.created_seq.items():
+                if g != cid and cseq > pseq and hl and tr.files[g]["linked"] and tr.files[g]["synced"] >= hl:
+                    ok = True
+        if not ok:
+            tr.fails.append(("deleted-before-purge-durable",
+                             {"chunk": cid, "closing_last": cl, "purges": tr.purges[-3:],
+                              "files": {k: v for k, v in tr.files.items() if v["linked"]}}))
+
+    def on_group(tr, i, cmd, g):
+        # liveness: after flush + worker idle without any fault, the directory holds
+        # exactly the chunks the store still knows (closed + open)
+        if g.line.startswith("dir ") and not tr.faulted and i >= 2 and ig[i - 1].line.startswith("stat ") \
+                and ig[i - 2].line.startswith("wst idle") and tr.prim[i - 3].startswith("flush") \
+                if i >= 3 else False:
+            st = ig[i - 1].line
+            known = [int(m.group(1)) for m in re.finditer(r"(?:\(| )(\d+):\d+:\d+:\d+:\[", st.split(" open=")[0])]
+            m = re.search(r"open=(\d+):", st)
+            known.append(int(m.group(1)))
+            on_disk = [int(p.split(":")[0]) for p in g.line.split()[1:]]
+            if sorted(on_disk) != sorted(known):
+                tr.fails.append(("obsolete-chunk-not-removed-or-needed-chunk-missing",
+                                 {"directory": on_disk, "store_chunks": known}))
+
+    tr = Trace(script, ig).run({"unlink": on_unlink, "group": on_group})
+    if tr.fails:
+        return tr.fails
+    # gap-free suffix starting with a snapshot: read back everything that is live
+    return oracle_spec_equal({"read"}, skip_d2=True)(script, ig, mg)
+
+
+def oracle_c14(script, ig, mg):
+    fails = []
+    dropped = False
+    for i, g in enumerate(ig):
+        if dropped:
+            for e in g.evs:
+                if " z " in e or e.startswith("ev exit z"):
+                    fails.append(("activity-after-drop", {"event": e}))
+                    return fails
+        if g.line.startswith("dropped"):
+            if g.line != "dropped":
+                fails.append(("worker-alive-after-drop", {"line": g.line, "later": [x.line for x in ig[i + 1:i + 3]]}))
+                return fails
+            dropped = True
+        if g.line.startswith("open ") and dropped and g.line != "open ok":
+            fails.append(("open-after-drop-failed", {"line": g.line}))
+            return fails
+    if fails:
+        return fails
+    f2 = oracle_spec_equal({"st", "read"}, skip_d2=True)(script, ig, mg)
+    if f2:
+        return f2
+    # the new instance keeps working: the final flush is acknowledged
+    if ig and ig[-1].line.startswith("wst") and any(l.startswith("flush 777") for l in script):
+        evs = [e for g in ig for e in g.evs]
+        if "ev cb 777 ok" not in evs:
+            fails.append(("new-instance-flush-not-acknowledged", {"last": ig[-1].line}))
+    return fails
+
+
+def oracle_c07(script, ig, mg):
+    """Every live entry readable without error, equal to the reference log,
+    through range reads and snapshot iteration."""
+    fails = []
+    for i, (a, b) in enumerate(zip(ig, mg)):
+        for s in b.spec:
+            ch = s.split()[0]
+            if ch not in ("read", "iter") or not a.line.startswith(ch):
+                continue
+            if a.line != s:
+                cls = f"{ch}-differs-from-spec"
+                nerr = a.line.count("err:notFound") + a.line.count("err:eof")
+                ninfo = sum(1 for x in b.info if x.startswith("c07 below-boundary-evicted"))
+                if nerr and a.line == b.line and ninfo == nerr and a.line.count("err:") == nerr:
+                    # the model predicts exactly these errors and attributes each of them to an
+                    # entry whose log id is at or below the eviction boundary (known finding D2)
+                    cls = "reappended-entry-at-or-below-boundary-evicted"
+                fails.append((cls, {"group": i, "impl": a.line, "spec": s, "model": b.line}))
+                return fails
+    return fails
+
+
+def oracle_c02(script, ig, mg):
+    """Around every clean restart: same state and entries before and after,
+    `open` changes no file, and the reference log continues to be matched."""
+    fails = []
+    prim = primary_cmds(script)
+    for i, g in enumerate(ig):
+        if i < len(prim) and prim[i] == "open" and i > 0:
+            if g.line != "open ok":
+                fails.append(("clean-restart-open-failed", {"group": i, "line": g.line}))
+                return fails
+            if g.evs:
+                fails.append(("open-modified-files-on-clean-restart", {"group": i, "events": g.evs}))
+                return fails
+            # queries emitted right before `drop` and right after `open`
+            k = i - 1
+            while k >= 0 and not ig[k].line.startswith("dropped"):
+                k -= 1
+            if k < 0:
+                continue
+            # clean = everything flushed and acknowledged before the drop:
+            # ... flush N / widle (cb N ok) / queries / drop, no write in between
+            j = k - 1
+            while j >= 0 and ig[j].line.startswith(QUERY_CH):
+                j -= 1
+            clean = False
+            if j >= 1 and ig[j].line.startswith("wst idle") and prim[j - 1].startswith("flush ") \
+                    and ig[j - 1].line == "ret ok":
+                cbid = prim[j - 1].split()[1]
+                clean = f"ev cb {cbid} ok" in ig[j].evs + ig[j - 1].evs
+            if not clean:
+                continue
+            before = {}
+            j = k - 1
+            while j >= 0 and ig[j].line.startswith(QUERY_CH):
+                d2 = j < len(mg) and ig[j].line == mg[j].line and any(
+                    x.startswith("c07 below-boundary-evicted") for x in mg[j].info)
+                if not d2:
+                    before.setdefault(prim[j], ig[j].line)
+                j -= 1
+            after = {}
+            j = i + 1
+            while j < len(ig) and ig[j].line.startswith(QUERY_CH):
+                d2 = j < len(mg) and ig[j].line == mg[j].line and any(
+                    x.startswith("c07 below-boundary-evicted") for x in mg[j].info)
+                if not d2:  # a read explained by the C07 known finding is left to C07
+                    after.setdefault(prim[j], ig[j].line)
+                j += 1
+            for q in before:
+                if q in after and before[q] != after[q] and q.split()[0] in ("st", "read", "dir", "size"):
+                    fails.append((f"{q.split()[0]}-changed-across-clean-restart",
+                                  {"group": i, "query": q, "before": before[q], "after": after[q]}))
+                    return fails
+    return oracle_spec_equal({"ret", "st", "read"}, skip_d2=True)(script, ig, mg)
+
+
+def proj_events(l):
+    if l.startswith(("ev ", "wst", "ret", "dropped", "open ")):
+        return ret_kind(l) if l.startswith("ret") else l
+    return None
+
+
+def proj_c08(l):
+    if l.startswith(("ev unlink", "ev write", "ev sync", "ev create", "ev trunc", "dir ", "wst", "dropped", "open ")):
+        return l
+    if l.startswith("stat "):
+        return l.split(" cache=")[0]
+    if l.startswith("ret"):
+        return ret_kind(l)
+    return None
+
+
+def proj_c07(l):
+    if l.startswith(("read ", "iter ")):
+        return l
+    if l.startswith("stat "):
+        return "stat " + stat_cache(l)
+    return None
+
+
+def proj_c02(l):
+    if l.startswith(("st ", "read ", "dir ", "size ", "open ", "dropped", "rec ", "dumpw")):
+        return l
+    if l.startswith("ev ") and " o " in l:
+        return l
+    if l.startswith("ret"):
+        return ret_kind(l)
+    if l.startswith("stat "):
+        return l.split(" cache=")[0]
+    return None
+
+
+def with_stat_after_writes(lines, extra=("stat",)):
+    out = []
+    for l in lines:
+        out.append(l)
+        if l.split()[0] in WRITE_WORDS:
+            out += list(extra)
+    return out
+
+
+def scripts_c04(tier, rng):
+    n = 250 if tier == "quick" else 3000
+    out, stats = [], {}
+    for i in range(n):
+        g = gen.HistGen(rng.fork(), max_ops=30, worker_steps=True, faults=(i % 2 == 0), queries=(),
+                        flush_prob=(1, 2), weights=dict(append=40, purge=6, truncate=4, ud=3, vote=6, commit=6))
+        lines = with_stat_after_writes(g.script())
+        lines.insert(2, "stat")
+        lines += ["flush 9998", "widle"]
+        out.append((f"c04_{i}", lines))
+        for k, v in g.stats.items():
+            stats[k] = stats.get(k, 0) + v
+    return out, stats
+
+
+def scripts_c08(tier, rng):
+    n = 250 if tier == "quick" else 3000
+    out, stats = [], {}
+    for i in range(n):
+        g = gen.HistGen(rng.fork(), max_ops=35, worker_steps=(i % 3 != 0), faults=(i % 4 == 1), queries=(),
+                        flush_prob=(1, 3), weights=dict(append=40, purge=18, truncate=8, ud=2, vote=4, commit=4))
+        lines = []
+        for l in g.script():
+            lines.append(l)
+            if l.split()[0] in WRITE_WORDS:
+                lines.append("stat")
+            if l.startswith("purge") and rng.chance(2, 3):
+                lines += [f"flush {5000 + len(lines)}", "widle", "stat", "dir", f"read 0 {U64MAX}"]
+        lines.insert(2, "stat")
+        lines += ["flush 9998", "widle", "stat", "dir", f"read 0 {U64MAX}"]
+        out.append((f"c08_{i}", lines))
+        for k, v in g.stats.items():
+            stats[k] = stats.get(k, 0) + v
+    return out, stats
+
+
+def scripts_c14(tier, rng):
+    n = 200 if tier == "quick" else 2500
+    out, stats = [], {}
+    for i in range(n):
+        r = rng.fork()
+        g = gen.HistGen(r, max_ops=25, worker_steps=True, queries=(), flush_prob=(1, 3),
+                        weights=dict(append=40, purge=14, truncate=4, ud=2, vote=4, commit=4))
+        lines = g.script()
+        # last flush, then release the worker only until that flush is acknowledged
+        lines += ["flush 9000"]
+        k = r.below(4)
+        lines += ["wack 9000"] if k else ["widle"]
+        lines += ["st", f"read 0 {U64MAX}", "dir", "drop", "dir", g.cfg_line(), "open", "st", f"read 0 {U64MAX}"]
+        # the new instance keeps working
+        if g.m.entries:
+            e = g.m.entries[len(g.m.entries) // 2]
+            lines += [f"purge {e[0]} {e[1]}"]
+        lines += ["flush 777", "widle", "st", f"read 0 {U64MAX}", "dir"]
+        out.append((f"c14_{i}", lines))
+        for kk, v in g.stats.items():
+            stats[kk] = stats.get(kk, 0) + v
+    return out, stats
+
+
+def scripts_c07(tier, rng):
+    n = 300 if tier == "quick" else 4000
+    out, stats = [], {}
+    for i in range(n):
+        g = gen.HistGen(rng.fork(), max_ops=35, small_cache=True, worker_steps=True, restarts=(i % 3 == 0),
+                        faults=(i % 5 == 4), queries=("read", "iter", "stat"), flush_prob=(1, 2),
+                        payload_sizes=(0, 1, 7, 300), weights=dict(append=45, truncate=10, purge=8))
+        lines = g.script()
+        lines += ["flush 9998", "widle", f"read 0 {U64MAX}", "iter", "drain", f"read 0 {U64MAX}", "iter", "stat"]
+        out.append((f"c07_{i}", lines))
+        for k, v in g.stats.items():
+            stats[k] = stats.get(k, 0) + v
+    return out, stats
+
+
+def scripts_c02(tier, rng):
+    n = 250 if tier == "quick" else 3000
+    out, stats = [], {}
+    for i in range(n):
+        g = gen.HistGen(rng.fork(), max_ops=30, small_cache=(i % 2 == 0), worker_steps=(i % 2 == 1),
+                        restarts=True, queries=("st", "read"), weights=dict(restart=14))
+        lines = []
+        for l in g.script():
+            if l == "drop":
+                lines += ["st", f"read 0 {U64MAX}", "size", "dir"]
+            lines.append(l)
+            if l == "open" and len(lines) > 3:
+                lines += ["st", f"read 0 {U64MAX}", "size", "dir"]
+        lines += ["flush 9998", "widle", "st", f"read 0 {U64MAX}", "size", "dir", "drop", g.cfg_line(), "open",
+                  "st", f"read 0 {U64MAX}", "size", "dir", "dumpw"]
+        out.append((f"c02_{i}", lines))
+        for k, v in g.stats.items():
+            stats[k] = stats.get(k, 0) + v
+    return out, stats
+
+
+PROPS.update({
+    "C04": dict(theorems=[], gen=scripts_c04, project=proj_events, oracle=oracle_c04,
+                explanation="flush acknowledgement soundness", assumptions=OS_ASSUMPTIONS),
+    "C08": dict(theorems=[], gen=scripts_c08, project=proj_c08, oracle=oracle_c08,
+                explanation="chunk deletion", assumptions=OS_ASSUMPTIONS),
+    "C14": dict(theorems=[], gen=scripts_c14, project=proj_events, oracle=oracle_c14,
+                explanation="drop quiesces", assumptions=OS_ASSUMPTIONS),
+    "C07": dict(theorems=[], gen=scripts_c07, project=proj_c07, oracle=oracle_c07,
+                explanation="reads independent of cache/worker", assumptions=OS_ASSUMPTIONS),
+    "C02": dict(theorems=[], gen=scripts_c02, project=proj_c02, oracle=oracle_c02,
+                explanation="clean restart equivalence", assumptions=OS_ASSUMPTIONS),
+})
